@@ -413,12 +413,89 @@ func TestC02(t *testing.T) {
 		}
 		note(fmt.Sprintf("ok/%s/prefix=%d", ek, len(got)))
 	})
+	// ---- long streams: reflection, replay and cross-direction keys after
+	// key rotations (the short streams above never rotate)
+	perRot := int(mailbox.VerifKeyRotationInterval) / 2
+	type ljob struct {
+		cfg  hsCase
+		n    int // records per direction before the attack
+		kind string
+		back int // how far back the replayed / reflected record lies
+	}
+	var ljobs []ljob
+	for _, cfg := range cfgs[1:] {
+		for _, n := range []int{perRot - 1, perRot, perRot + 1, 2*perRot + 1} {
+			for _, back := range []int{0, 1, perRot - 1, perRot, perRot + 1} {
+				if back > n {
+					continue
+				}
+				ljobs = append(ljobs, ljob{cfg, n, "reflect", back}, ljob{cfg, n, "replay", back})
+			}
+		}
+	}
+	parallel(len(ljobs), func(i int) {
+		j := ljobs[i]
+		a, b, err := pairOfMachines(j.cfg)
+		if err != nil {
+			r.Violation("setup", err.Error(), j.cfg.String())
+			return
+		}
+		atomic.AddInt64(&evals, 1)
+		label := fmt.Sprintf("%v: %d records each way, then %s of the record %d positions back", j.cfg, j.n, j.kind, j.back)
+		var recsAB, recsBA [][]byte
+		for k := 0; k <= j.n; k++ {
+			m := msgOf('L', k, 9)
+			ra, e1 := recordsOf(a, [][]byte{m})
+			rb, e2 := recordsOf(b, [][]byte{m})
+			if e1 != nil || e2 != nil {
+				r.Violation("setup", "write failed", label)
+				return
+			}
+			recsAB, recsBA = append(recsAB, ra[0]), append(recsBA, rb[0])
+			if k == j.n {
+				break // the last record of each direction is not delivered
+			}
+			if got, err := b.ReadMessage(bytes.NewReader(ra[0])); err != nil || !bytes.Equal(got, m) {
+				r.Violation("long-stream-fails", fmt.Sprintf("%s: untouched record %d a->b does not decrypt: %v", label, k, err), label)
+				return
+			}
+			if got, err := a.ReadMessage(bytes.NewReader(rb[0])); err != nil || !bytes.Equal(got, m) {
+				r.Violation("long-stream-fails", fmt.Sprintf("%s: untouched record %d b->a does not decrypt: %v", label, k, err), label)
+				return
+			}
+		}
+		// direction-separated keys, also after rotations
+		if a.VerifSend().Key == b.VerifSend().Key || a.VerifSend().Key == a.VerifRecv().Key {
+			r.Violation("direction-keys-equal", fmt.Sprintf("%s: the two directions use the same traffic key after %d records", label, j.n), label)
+			return
+		}
+		// b now expects record n from a. Hand it something else.
+		var forged []byte
+		switch j.kind {
+		case "reflect":
+			forged = recsBA[j.n-j.back] // b's own record of the same / an earlier index
+		case "replay":
+			if j.back == 0 {
+				return // the genuine next record
+			}
+			forged = recsAB[j.n-j.back]
+		}
+		got, err := b.ReadMessage(bytes.NewReader(forged))
+		if err == nil {
+			r.Violation("tampered-record-accepted/"+j.kind+"-after-rotation",
+				fmt.Sprintf("%s: accepted as valid (%d bytes returned)", label, len(got)), label)
+			return
+		}
+		atomic.AddInt64(&nontrivial, 1)
+		note("ok/long/" + j.kind)
+	})
+	r.Sample(map[string]any{"config": cfgs[1].String(), "long_stream": "501 records each way, then reflect the record 500 positions back"})
 	r.Sample(map[string]any{"config": cfgs[1].String(), "record_sizes": []int{0, 1, 5}, "edit": edit{kind: "flip", i: 1, arg: 3}.String()})
 	r.Sample(map[string]any{"config": cfgs[2].String(), "record_sizes": []int{5, 5, 5}, "edit": edit{kind: "reflect", i: 1, j: 0}.String()})
 	r.Set("evaluations", evals)
 	r.Set("distinct_nontrivial", nontrivial)
 	r.Set("outcome_classes", classes)
-	r.Set("rule", "after a real handshake (XX v0, XX v2, KK), both directions, through Machine.ReadMessage and NoiseConn: streams of 3-4 records of 0/1/5 bytes (65535 thorough) including equal plaintexts; every single-bit flip of every byte of every record; drop, duplicate, swap-adjacent, replay-later, reflect (a record of the opposite direction), inject 1/18/34 bytes of 00/ff before every record, truncate at every byte offset; thorough: all ordered pairs of non-flip edits. The reader reads until three consecutive errors. distinct_nontrivial = altered streams on which the oracle (prefix, tampered record never accepted, deviation reported as an error, nothing valid after an error) held")
+	r.Set("rule", "after a real handshake (XX v0, XX v2, KK), both directions, through Machine.ReadMessage and NoiseConn: streams of 3-4 records of 0/1/5 bytes (65535 thorough) including equal plaintexts; every single-bit flip of every byte of every record; drop, duplicate, swap-adjacent, replay-later, reflect (a record of the opposite direction), inject 1/18/34 bytes of 00/ff before every record, truncate at every byte offset; thorough: all ordered pairs of non-flip edits; long streams of 499/500/501/1001 records each way (across key rotations) followed by a reflected or replayed record 0/1/499/500/501 positions back, plus the check that the two directions never share a key. The reader reads until three consecutive errors. distinct_nontrivial = altered streams on which the oracle (prefix, tampered record never accepted, deviation reported as an error, nothing valid after an error) held")
 	r.Set("exhaustive", true)
 	exitCode = r.Finish()
 }
